@@ -409,8 +409,9 @@ def evaluate_batch(chk, cases):
         for ev in sorted(set(bad)):
             findings.append((f'C15:side-effect:{ev}', f'audit event "{ev}" while loading / evaluating the formula {short(formula_of(case))}', replay))
         if obs.startswith('raised:') and not (bad and obs.endswith(':SideEffectBlocked')):
-            shape = m_obs.split(':')[3] if m_cmp == obs and m_obs.count(':') >= 3 else 'unmodelled'
             _, site, cls = obs.split(':')
+            # shape: from the model when it raises the same; else the input class a repaired defect of that site had
+            shape = m_obs.split(':')[3] if m_cmp == obs and m_obs.count(':') >= 3 else REPAIRED_SHAPES.get((site, cls), 'unmodelled')
             findings.append((f'C15:{site}:{cls}:{shape}',
                              f'{cls} escapes ({site}) for operational_status={short(formula_of(case))}',
                              dict(replay, traceback=tb)))
@@ -421,6 +422,11 @@ def evaluate_batch(chk, cases):
             findings.append((sig, f'clause "{verdict}" violated: operational_status={short(formula_of(case))} reported {obs}', replay))
         info['model'] = m_obs; info['verdict'] = verdict
         yield case, info, head, obs, findings, diff
+
+
+REPAIRED_SHAPES = {('evaluate', 'AttributeError'): 'call-func-not-name', ('evaluate', 'IndexError'): 'call-no-positional-arg',
+                   ('evaluate', 're.error'): 'invalid-regex', ('evaluate', 'OverflowError'): 'invalid-regex',
+                   ('status_tree', 'AttributeError'): 'stmt-without-value'}
 
 
 def short(text):
@@ -479,9 +485,12 @@ def nontrivial(case, info):
     """ the decision is reached with more than one alternative open: at least two processes, and either a formula
         with at least one operator / call node, or (no stored tree) at least one process crashed or STOPPED """
     if info['nprocs'] < 2: return False
+    if info['top'] == 'STMT_VALUE' and any(d in (0, 100, 200, 1000) for d in
+                                            [(fo if fo is not None else st) for _, st, fo, _, _, _ in case['procs']]):
+        return True
     if info['top'] in ('EXPR', 'STMT_VALUE'):
         return any(k in info['kinds'] for k in ('BoolOp', 'UnaryOp', 'Call'))
-    if info['top'] in ('NONE', 'SYNTAX', 'MULTI', 'STMT_NONE'):
+    if info['top'] in ('NONE', 'SYNTAX', 'MULTI', 'STMT_NONE', 'STMT_NOVALUE'):
         disp = [(fo if fo is not None else st) for _, st, fo, _, _, _ in case['procs']]
         return any(d in (0, 100, 200, 1000) for d in disp)
     return False
